@@ -697,6 +697,8 @@ impl<'a> Parser<'a> {
     }
 
     fn parse_expr_bp(&mut self, min_bp: u8) -> TeraResult<Expression> {
+        #[cfg(tera_verif)]
+        let _verif_gauge = crate::verif::DepthGuard::new();
         let (token, mut span) = self.next_or_error()?;
 
         let mut lhs = match token {
@@ -1127,6 +1129,8 @@ impl<'a> Parser<'a> {
     }
 
     fn parse_if(&mut self) -> TeraResult<If> {
+        #[cfg(tera_verif)]
+        let _verif_gauge = crate::verif::DepthGuard::new();
         self.body_contexts.push(BodyContext::If);
         let expr = self.parse_expression(0)?;
         expect_token!(self, Token::TagEnd(..), "%}")?;
@@ -1654,6 +1658,8 @@ impl<'a> Parser<'a> {
         &mut self,
         end_check_fn: F,
     ) -> TeraResult<Vec<Node>> {
+        #[cfg(tera_verif)]
+        let _verif_gauge = crate::verif::DepthGuard::new();
         let mut nodes = Vec::new();
 
         while let Some((token, _)) = self.next()? {
